@@ -11,6 +11,12 @@ has_hardlink_to = sys.version_info.major == 3 and sys.version_info.minor >= 10
 def shallow_copy(src_path: Path, dest_path: Path):
     """Copy a directory or file, trying to use hard links if possible"""
     if src_path.is_file():
+        if dest_path.is_symlink() or dest_path.exists():
+            # An earlier copy: it may be a hard link to ANOTHER source file,
+            # which a copy over it would overwrite
+            if dest_path.exists() and dest_path.samefile(src_path):
+                return
+            dest_path.unlink()
         try:
             if has_hardlink_to:
                 dest_path.hardlink_to(src_path)
